@@ -159,6 +159,8 @@ def proj(t, name):
         return mk_phi([proj(a, name) for a in t[1]])
     if k in ('undef', 'top'):
         return t
+    if k == 'at':
+        return ('at', ('field', t[1], name), proj(t[2], name))
     return ('field', t, name)
 
 
@@ -201,6 +203,7 @@ class Interp:
         self.writes = {}      # (bb, stmt index) -> WriteRec
         self.muts = {}        # (bb, arg index) -> WriteRec (via &mut escapes into calls)
         self.returns = {}
+        self.ret_assigns = {}
         self.in_states = {}
         self.first_in = {}
         self.visits = {}
@@ -381,7 +384,7 @@ class Interp:
                     ty = self.body.locals[pl['local']]['ty']
             if a[0] == 'ref':
                 is_mut = bool(ty and ty['k'] == 'ref' and ty['mut'])
-                args.append(ArgRec(self.value(st, a), a[1], is_mut, ty))
+                args.append(ArgRec(self.at_wrap(a[1], self.value(st, a)), a[1], is_mut, ty))
             else:
                 is_mut = bool(ty and ty['k'] == 'ref' and ty['mut'])
                 loc = (('O', a), ()) if (ty and ty['k'] == 'ref') else None
@@ -431,8 +434,28 @@ class Interp:
         # destination
         dloc = self.loc_of(st, t['dest'])
         self.write_loc(st, dloc, result)
+        if dloc == (('L', 0), ()):
+            self.ret_assigns[(bb, 'dest')] = WriteRec(bb, dloc, result, line, 'ret')
         if dloc[0][0] != 'L' or dloc[1]:
             self.writes[(bb, 'dest')] = WriteRec(bb, dloc, result, line, 'assign')
+
+    def at_wrap(self, loc, v):
+        """A value read through a parameter-rooted reference keeps the identity of its location:
+        ('at', <location term>, value) unless the value still is the unmodified location."""
+        root, path = loc
+        if root[0] != 'P':
+            return v
+        lt = ('param', root[1])
+        for f in path:
+            lt = ('field', lt, f)
+        x = v
+        while x[0] == 'lv':
+            x = x[3]
+        if x == lt or v[0] in ('top', 'undef'):
+            return v
+        if v[0] == 'at' and v[1] == lt:
+            return v
+        return ('at', lt, v)
 
     def _capture_is_mut(self, cb, kidx):
         # upvar k of closure body cb: captured by mutable reference?
@@ -661,6 +684,8 @@ class Interp:
                 self.write_loc(st, loc, v)
                 if loc[0][0] != 'L' or (loc[1] and self._is_param_local(loc[0])):
                     self.writes[(bb, si)] = WriteRec(bb, loc, self.value(st, v), s['span']['line'], 'assign')
+                if loc == (('L', 0), ()):
+                    self.ret_assigns[(bb, si)] = WriteRec(bb, loc, self.value(st, v), s['span']['line'], 'ret')
             elif k == 'dead':
                 st.env[s['local']] = UNDEF
         t = blk['term']
@@ -755,6 +780,10 @@ def fmt_term(t, depth=12):
         return 'phi(%s)' % ' | '.join(sorted(fmt_term(x, d) for x in t[1]))
     if k == 'lv':
         return 'lv@bb%s(%s)' % (t[1], fmt_term(t[3], d))
+    if k == 'at':
+        return '%s@{%s}' % (fmt_term(t[1], d), fmt_term(t[2], d))
+    if k in ('item', 'acc'):
+        return '%s(%s)' % (k, fmt_term(t[1], d))
     if k == 'ref':
         return '&%s' % fmt_loc(t[1])
     return k
